@@ -287,7 +287,14 @@ def run_histories(prop, cfg, nhist, seed, start_id, embname="dy", poolname="asci
             sub["ops"] = [rng.choice(cand)]
             sub["kinds"] = [kind]
             vec = rand_vectors_on(pre, sub, rng, HI)
-            ev, ret = T.run_vector(vec, emb, pool, eid, recv=cur)
+            try:
+                ev, ret = T.run_vector(vec, emb, pool, eid, recv=cur)
+            except common.MachineryError:
+                raise
+            except Exception as ex:  # noqa
+                events.append(T.broken_event(eid, vec, ex))
+                eid += 1
+                break
             ev["hist"] = h
             ev["step"] = step
             events.append(ev)
@@ -317,7 +324,14 @@ def sim_histories(prop, cfg, tier, work, res, nbeh, start_id, embname="dy", pool
             if o.get("op", "none") == "none":
                 continue
             vec = {"op": o["op"], "args": o["args"], "pre": o["pre"], "arg": o["arg"]}
-            ev, ret = T.run_vector(vec, emb, pool, eid, recv=live)
+            try:
+                ev, ret = T.run_vector(vec, emb, pool, eid, recv=live)
+            except common.MachineryError:
+                raise
+            except Exception as ex:  # noqa
+                events.append(T.broken_event(eid, vec, ex))
+                eid += 1
+                break
             ev["hist"], ev["step"] = h, k
             if (ev["st"], ev["ret"], ev["post"]) != (o["st"], o["ret"], o["post"]):
                 drift_n += 1
@@ -452,6 +466,9 @@ def check(prop, tier):
         BATCH = 250000
 
         def process(events, sample=False):
+            events, bad = T.split_broken(events)
+            for e in bad:
+                res.violations.append((prop + "_api_call_sequence_crashed_outside_the_call_under_test", e))
             verdicts, nval, cmd = common.validate_traces("Trace_Tier", events, work)
             if cmd not in res.cmds:
                 res.cmds.append(cmd)
@@ -475,7 +492,7 @@ def check(prop, tier):
                 chunk = vectors[b0:b0 + BATCH]
                 events = T.replay(chunk, [plan], 0)
                 if pi == 0:
-                    ndrift += sum(1 for v, ev in zip(chunk, events) if drift(v, ev))
+                    ndrift += sum(1 for v, ev in zip(chunk, events) if not ev.get("broken") and drift(v, ev))
                 process(events, sample=(pi == 0 and b0 == 0))
                 del events
         # (S3) random vectors on the millisecond grid (arbitrary 3-decimal timestamps)
